@@ -25,6 +25,7 @@ import (
 	. "verifharness/hlib"
 
 	erpc "github.com/henrylee2cn/erpc/v6"
+	"github.com/henrylee2cn/erpc/v6/socket"
 	ws "github.com/henrylee2cn/erpc/v6/mixer/websocket"
 	"github.com/henrylee2cn/erpc/v6/mixer/websocket/jsonSubProto"
 	"github.com/henrylee2cn/erpc/v6/mixer/websocket/pbSubProto"
@@ -709,6 +710,171 @@ func genCase(cfg *RunCfg, proto string) *caseCfg {
 	return c
 }
 
+// ---------------------------------------------------------------- scripted server (caller side alone)
+
+// rawLink: the client peer's session talks to a RawPeer that answers with whatever status and
+// body the case says - including a non-OK status together with a body, which the framework's
+// own serving side never sends.
+type rawLink struct {
+	l    *link
+	sess erpc.Session
+	rp   *RawPeer
+}
+
+type rawCase struct {
+	c      *caseCfg // carries the client verdicts
+	ok     bool
+	st     statusSpec
+	body   string // none | good | bad
+	result Res
+}
+
+func (r *rawLink) session() erpc.Session {
+	if r.sess != nil && r.sess.Health() {
+		return r.sess
+	}
+	cc, sc := TCPPair()
+	var pfs []erpc.ProtoFunc
+	var spf []socket.ProtoFunc
+	if r.l.pf != nil {
+		pfs = append(pfs, r.l.pf)
+		spf = append(spf, socket.ProtoFunc(r.l.pf))
+	}
+	sess, st := r.l.cli.ServeConn(cc, pfs...)
+	if !st.OK() {
+		Must(errors.New("ServeConn: " + st.String()))
+	}
+	r.sess = sess
+	r.rp = NewRawPeer(sc, spf...)
+	return sess
+}
+
+func (r *rawLink) run(rc *rawCase) observation {
+	sess := r.session()
+	cur = rc.c
+	defer func() { cur = nil }()
+	doneCh := make(chan erpc.CallCmd, 1)
+	go func() {
+		doneCh <- sess.Call("/any/route", &Arg{A: 1}, &rc.result, erpc.WithBodyCodec('j'))
+	}()
+	req, err := r.rp.Recv(5 * time.Second)
+	if err != nil {
+		Must(errors.New("scripted server: no request: " + err.Error()))
+	}
+	var body []byte
+	switch rc.body {
+	case "good":
+		body = []byte(`{"r":42,"s":"x!"}`)
+	case "bad":
+		body = []byte(`"a string, not a struct"`)
+	}
+	Must(r.rp.Send(func(m socket.Message) {
+		m.SetMtype(erpc.TypeReply)
+		m.SetSeq(req.Seq())
+		m.SetBodyCodec('j')
+		if !rc.ok {
+			m.SetStatus(erpc.NewStatus(rc.st.code, rc.st.msg, rc.st.cause))
+		}
+		if body != nil {
+			m.SetBody(body)
+		}
+	}))
+	var o observation
+	select {
+	case cmd := <-doneCh:
+		st := cmd.Status()
+		o.code = st.Code()
+		if st != nil {
+			o.msg, o.cause = rawFields(st)
+		}
+	case <-time.After(5 * time.Second):
+		o.hung = true
+		r.rp.Conn.Close()
+		r.sess = nil
+		return o
+	}
+	o.resultMatch = rc.result.R == 42 && rc.result.S == "x!"
+	o.resultRepr = fmt.Sprintf("%+v", rc.result)
+	return o
+}
+
+func genRawCase(cfg *RunCfg, proto string) *rawCase {
+	r := cfg.Rng
+	rc := &rawCase{c: &caseCfg{proto: proto, codec: 'j', sVerdict: map[string]statusSpec{}, cVerdict: map[string]statusSpec{}}}
+	rc.ok = r.Intn(3) == 0
+	if !rc.ok {
+		rc.st = genStatus(cfg, proto == "http", "rs", false)
+	}
+	rc.body = []string{"none", "good", "good", "bad"}[r.Intn(4)]
+	if proto == "http" && !rc.ok {
+		rc.body = "none" // a 299 response's body IS the status
+	}
+	if r.Intn(4) == 0 {
+		stg := []string{"porh", "prrb", "porrb"}[r.Intn(3)]
+		rc.c.cVerdict[stg] = genStatus(cfg, true, "cp-"+stg, true)
+	}
+	return rc
+}
+
+func (rc *rawCase) human() string {
+	return fmt.Sprintf("proto=%s scripted-server ok=%v status=%v body=%s client=%v", rc.c.proto, rc.ok, rc.st, rc.body, rc.c.cVerdict)
+}
+
+func (rc *rawCase) inputs() string {
+	cv := func(k string) string {
+		if v, ok := rc.c.cVerdict[k]; ok {
+			return verdictVal(v)
+		}
+		return VS("nil")
+	}
+	st := VS("ok")
+	if !rc.ok {
+		st = statVal(rc.st)
+	}
+	dec := VS("ok")
+	if rc.body == "bad" {
+		dec = VL(VS("err"), VBool(true))
+	}
+	return VL(VS("raw"), VBool(true), st, VBool(rc.body != "none"), cv("porh"), cv("prrb"), cv("porrb"), dec, VBool(true))
+}
+
+func rawOracle(st *Stats, idx int, rc *rawCase, o observation) {
+	h := rc.human()
+	got := fmt.Sprintf("(%d,%q,%q) result=%+v", o.code, o.msg, o.cause, rc.result)
+	if o.hung {
+		st.Fail(idx, "caller-hangs", "the call never completed (5 s)", h)
+		return
+	}
+	var want *statusSpec
+	codeOnly := false
+	if v, ok := rc.c.cVerdict["porh"]; ok && v.code != 0 {
+		want = &v
+	} else if v, ok := rc.c.cVerdict["prrb"]; ok && v.code != 0 {
+		want = &v
+	} else if !rc.ok {
+		want = &rc.st
+	} else if rc.body == "bad" {
+		want, codeOnly = &statusSpec{400, "Bad Message", ""}, true
+	} else if v, ok := rc.c.cVerdict["porrb"]; ok && v.code != 0 {
+		want = &v
+	}
+	if want == nil {
+		if o.code != 0 {
+			st.Fail(idx, "ok-iff", "the reply was OK and decodable but the caller sees "+got, h)
+		} else if o.resultMatch != (rc.body == "good") {
+			st.Fail(idx, "result", "caller's result does not hold the reply body: "+got, h)
+		}
+		return
+	}
+	if o.code == 0 {
+		st.Fail(idx, "ok-iff", fmt.Sprintf("caller sees OK but the reply/hooks said %v: got %s", *want, got), h)
+		return
+	}
+	if o.code != want.code || o.msg != want.msg || (!codeOnly && o.cause != want.cause) {
+		st.Fail(idx, "status-exact", fmt.Sprintf("expected %v got %s", *want, got), h)
+	}
+}
+
 // ---------------------------------------------------------------- main
 
 func child(cfg *RunCfg, proto string) {
@@ -717,7 +883,22 @@ func child(cfg *RunCfg, proto string) {
 	w := NewCaseWriter(cfg)
 	l := newLink(proto)
 	distinct := DistinctSet{}
+	rl := &rawLink{l: l}
+	scripted := proto == "raw" || proto == "json" || proto == "pb" || proto == "http" || proto == "thrift-binary"
 	for i := 0; i < cfg.N; i++ {
+		if scripted && i%6 == 5 {
+			rc := genRawCase(cfg, proto)
+			o := rl.run(rc)
+			st.Count("proto:" + proto)
+			st.Count("scripted-server:body-" + rc.body)
+			if !rc.ok && rc.body != "none" {
+				st.Count("scripted-server:status-with-body")
+			}
+			rawOracle(st, i, rc, o)
+			w.Add(rc.inputs(), rc.c.observedVal(o))
+			distinct.Add(rc.human())
+			continue
+		}
 		c := genCase(cfg, proto)
 		o := l.run(c)
 		st.Count("proto:" + proto)
